@@ -31,7 +31,9 @@ func TestRegress(t *testing.T) { harness.RunRegress(t) }
 const kfParser125 = "fc1-fc2-request-parser-limit-125"
 
 type reqCase struct {
-	// Class: valid | unsupported | out-of-range | truncated | bad-bytecount
+	// Class: valid | unsupported | out-of-range | truncated | bad-bytecount | huge-length (complete frame whose MBAP length field is far
+	// beyond any legal request, up to 65535) | not-modbus (protocol id not 0: nothing is required but a reply, if any, must be a
+	// well-formed exception and nothing may crash)
 	Class string   `json:"class"`
 	Frame spec.Hex `json:"frame"`
 	// Handler: device | typed-error | generic-error | panic
@@ -59,6 +61,19 @@ func checkReply(c reqCase, out []byte, panicked bool) (labels []string, err erro
 			return labels, fmt.Errorf("no reply to the valid request %x", f)
 		case c.Class == "unsupported" || c.Class == "out-of-range":
 			return labels, fmt.Errorf("no exception reply to the %s request %x", c.Class, f)
+		case c.Class == "huge-length" && !spec.IsSupported(fc):
+			return labels, fmt.Errorf("no exception reply to the complete %d-byte frame with MBAP length %d starting %x", len(f), int(f[4])<<8|int(f[5]), f[:12])
+		}
+		return labels, nil
+	}
+	if c.Class == "not-modbus" {
+		// the stream is not Modbus TCP, so its later bytes may be taken for further frames: whatever is sent must still be a sequence
+		// of well-formed ADUs (and nothing may crash or disturb other connections, checked by the callers)
+		for rest := out; len(rest) > 0; {
+			if len(rest) < 8 || rest[2] != 0 || rest[3] != 0 || 6+(int(rest[4])<<8|int(rest[5])) > len(rest) || int(rest[4])<<8|int(rest[5]) < 2 {
+				return labels, fmt.Errorf("bytes %x sent for the non-Modbus input %x are not a sequence of well-formed ADUs (at offset %d)", out, f, len(out)-len(rest))
+			}
+			rest = rest[6+(int(rest[4])<<8|int(rest[5])):]
 		}
 		return labels, nil
 	}
@@ -98,6 +113,12 @@ func checkReply(c reqCase, out []byte, panicked bool) (labels []string, err erro
 	case "truncated":
 		if !isExc {
 			return labels, fmt.Errorf("truncated request %x was answered with a normal response %x", f, out)
+		}
+	case "huge-length":
+		// the property does not say that over-long frames must be refused, only that whatever is sent is a well-formed ADU addressed to
+		// the request (checked above) and that unsupported functions get exception 01
+		if !spec.IsSupported(fc) && !bytes.Equal(out, exception(f, 1)) {
+			return labels, fmt.Errorf("unsupported function %d in a frame with MBAP length %d: reply %x, want the illegal-function exception %x", fc, int(f[4])<<8|int(f[5]), out, exception(f, 1))
 		}
 	case "valid":
 		if known {
@@ -191,7 +212,7 @@ func runAssembler(c reqCase) ([]string, error) {
 	if err != nil {
 		return labels, err
 	}
-	if !panicked {
+	if !panicked && c.Class != "not-modbus" { // a stream that is not Modbus cannot be resynchronised: nothing is required of what follows on it
 		follow := spec.EncodeRequest(spec.TCP, spec.Req{FC: 3, Unit: 9, Tx: 0x7777, Addr: 5, Qty: 1})
 		asm.Handler = &srv.Handler{Dev: device.New(c.DevSeed)}
 		out2, _ := asm.ReceiveRead(context.Background(), follow, len(follow))
@@ -200,7 +221,7 @@ func runAssembler(c reqCase) ([]string, error) {
 			return labels, fmt.Errorf("after request %x (reply %x) a following valid request %x was answered with %x, want %x: leftovers disturbed it", []byte(c.Frame), out, follow, out2, want)
 		}
 	}
-	if !panicked && c.Handler != "panic" {
+	if !panicked && c.Handler != "panic" && c.Class != "not-modbus" {
 		// pipelined: the same frame followed by two valid requests, all in ONE read. Every reply must still be a
 		// well-formed ADU addressed to its own request, in order.
 		byUnit := c.Frame[6] + 1
@@ -311,7 +332,7 @@ func runServer(c reqCase) ([]string, error) {
 	if err != nil {
 		return labels, err
 	}
-	if !closed {
+	if !closed && c.Class != "not-modbus" {
 		// a following valid request on the same connection must be answered normally (no leftovers)
 		if err := exchange(conn, col, len(out), byReq, byWant); err != nil {
 			return labels, fmt.Errorf("same connection, valid request following %x (reply %x): %v", []byte(c.Frame), out, err)
@@ -395,7 +416,7 @@ func fixLen(d []byte) {
 
 func genReq(t *rapid.T, level string) reqCase {
 	c := reqCase{Level: level, DevSeed: rapid.Uint64().Draw(t, "dev_seed")}
-	c.Class = rapid.SampledFrom([]string{"valid", "valid", "unsupported", "out-of-range", "truncated", "bad-bytecount"}).Draw(t, "class")
+	c.Class = rapid.SampledFrom([]string{"valid", "valid", "valid", "valid", "unsupported", "unsupported", "out-of-range", "out-of-range", "truncated", "truncated", "bad-bytecount", "bad-bytecount", "huge-length", "not-modbus"}).Draw(t, "class")
 	c.Handler = "device"
 	switch c.Class {
 	case "valid":
@@ -421,6 +442,25 @@ func genReq(t *rapid.T, level string) reqCase {
 		d := append([]byte(nil), f[:k]...)
 		fixLen(d)
 		c.Frame = d
+	case "huge-length":
+		fc := gen.FC(t)
+		if rapid.IntRange(0, 3).Draw(t, "unsupported_fc") == 0 {
+			fc = rapid.SampledFrom(unsupported).Draw(t, "ufc")
+		}
+		n := rapid.SampledFrom([]int{65535, 65534, 65533, 65532, 65531, 65530, 65529, 32768, 300, 255, 254}).Draw(t, "length")
+		if rapid.IntRange(0, 3).Draw(t, "length_any") == 0 {
+			n = rapid.IntRange(254, 65535).Draw(t, "length_r")
+		}
+		body := harness.Bytes(c.DevSeed, n-2)
+		c.Frame = spec.Frame(spec.TCP, rapid.Uint16().Draw(t, "tx"), rapid.Uint8().Draw(t, "unit"), append([]byte{fc}, body...))
+	case "not-modbus":
+		f := spec.EncodeRequest(spec.TCP, gen.LegalReq(t, gen.FC(t), true))
+		if rapid.Bool().Draw(t, "random_bytes") {
+			f = gen.Payload(t, "junk", rapid.IntRange(8, 40).Draw(t, "njunk"))
+		}
+		f = append([]byte(nil), f...)
+		f[2+rapid.IntRange(0, 1).Draw(t, "pidx")] = byte(rapid.IntRange(1, 255).Draw(t, "pid"))
+		c.Frame = f
 	case "bad-bytecount":
 		fc := rapid.SampledFrom([]uint8{15, 16, 23}).Draw(t, "fc")
 		r := gen.LegalReq(t, fc, false)
@@ -438,7 +478,7 @@ func genReq(t *rapid.T, level string) reqCase {
 	if rapid.IntRange(0, 2).Draw(t, "split") == 0 && len(c.Frame) > 1 {
 		c.Cut = rapid.IntRange(1, len(c.Frame)-1).Draw(t, "cut")
 		if rapid.Bool().Draw(t, "cut_hot") {
-			c.Cut = rapid.SampledFrom([]int{6, 7, 8, 9, 10, 11, 12}).Draw(t, "cut_h")
+			c.Cut = rapid.SampledFrom([]int{3, 4, 5, 6, 7, 8, 9, 10, 11, 12}).Draw(t, "cut_h")
 			if c.Cut >= len(c.Frame) {
 				c.Cut = len(c.Frame) - 1
 			}
